@@ -37,4 +37,4 @@ def specs():
 def bounded(tier, seed, pr):
     from pyvc.boundedrun import run_bounded
 
-    return [run_bounded(pr, "b_codec.py", "codec_round_trips_and_registrations")]
+    return [run_bounded(pr, "b_codec.py", "codec_round_trips_and_registrations"), run_bounded(pr, "b_leftovers.py", "store_blob_from_leftover_states")]
